@@ -172,6 +172,10 @@ pub async fn run_history(mock: &Arc<Mock>, h: &History, cfg: &RunCfg) -> Outcome
     let mut out = Outcome::default();
     let key = universe_key(h.namespace.as_deref(), h.label_selector.as_deref());
     let universe = Universe::new(&h.initial);
+    universe.lock().stream_lag = h.stream_lag.unwrap_or(0);
+    for e in &h.pre_events {
+        universe.apply(&e.kind, &e.object);
+    }
     mock.register(&key, Arc::clone(&universe));
     let result = drive(&universe, h, cfg, &mut out).await;
     if let Err(why) = result {
@@ -184,6 +188,8 @@ pub async fn run_history(mock: &Arc<Mock>, h: &History, cfg: &RunCfg) -> Outcome
         out.count("mock: complete lists served", st.lists_completed);
         out.count("mock: list attempts failed with HTTP 500", st.list_failures);
         out.count("mock: watch streams started", st.watches_started);
+        out.count("mock: streaming lists served (sendInitialEvents)", st.stream_lists_served);
+        out.count("mock: servers reported twice before the initial-events-end bookmark", st.servers_reported_twice_in_initial_events);
         out.count("mock: watch resumes answered with ERROR 410", st.gone_answers);
         out.count("mock: live watch streams severed", st.severed);
         out.requests = st.requests.clone();
@@ -195,6 +201,9 @@ async fn drive(universe: &Arc<Universe>, h: &History, cfg: &RunCfg, out: &mut Ou
     let mut wc = watcher_config::Config::default();
     wc.label_selector = h.label_selector.clone();
     wc.page_size = h.page_size;
+    if h.stream_lag.is_some() {
+        wc = wc.streaming_lists();
+    }
     let t_create = Instant::now();
     let adapter = match tokio::time::timeout(
         Duration::from_secs(20),
@@ -215,6 +224,7 @@ async fn drive(universe: &Arc<Universe>, h: &History, cfg: &RunCfg, out: &mut Ou
         .initial
         .iter()
         .map(|o| Ev { kind: "ADDED".into(), object: o.clone() })
+        .chain(h.pre_events.iter().cloned())
         .collect();
     let (causes, changed) = apply_step(&initial_events.iter().collect::<Vec<_>>(), false, true, &mut reference);
     let info = StepInfo {
